@@ -213,7 +213,7 @@ type privCall struct {
 func (w *world) privilegedCalls(c *xchain, arg int64) []privCall {
 	other := w.chains[kernel.Mod(int64(c.idx)+1, len(w.chains))]
 	p := Packet{SrcChain: other.Cfg.Name, DstChain: c.Cfg.Name, Sequence: uint64(900 + kernel.Mod(arg, 5)), Sender: lower(w.adv.Eth),
-		TransferData: mustPackTransfer(TransferData{Token: lower(other.origin.Addr), OriToken: "", Amount: big.NewInt(12345).Bytes(), Receiver: lower(w.adv.Eth)}),
+		TransferData:    mustPackTransfer(TransferData{Token: lower(other.origin.Addr), OriToken: "", Amount: big.NewInt(12345).Bytes(), Receiver: lower(w.adv.Eth)}),
 		CallbackAddress: lower(zeroAddr)}
 	a := Ack{Code: 1, Relayer: w.adv.Acc.String()}
 	wtok := c.wrapped[fmt.Sprintf("%d/%s", other.idx, lower(other.origin.Addr))]
@@ -438,7 +438,8 @@ func (w *world) afterBlockGov(c *xchain) {
 	c.proposals = rest
 }
 
-func (w *world) opTSS(op kernel.Op)    {}
+func (w *world) opTSS(op kernel.Op) {}
+
 // opExport: module-level genesis export / validate / import / compare / re-export (C13). The running
 // chain is untouched.
 func (w *world) opExport(op kernel.Op) {
